@@ -295,15 +295,24 @@ func runCheck(def *CheckDef, tier string, seed int, noKnown, noReplay bool, only
 			continue
 		}
 		seen := map[string]int{}
+		reproducedKey := map[string]bool{}
+		notReproduced := map[string]string{}
 		for _, p := range r.Paths {
 			switch p.Status {
 			case sx.StViolation:
-				key := p.AssertID + "|" + firstLine(p.Msg)
+				key := p.AssertID + "|" + stripDigits(firstLine(p.Msg))
+				if reproducedKey[key] {
+					continue
+				}
 				seen[key]++
-				if seen[key] > 1 || len(replays) >= 4 {
+				// up to 3 different paths per assertion are replayed until one reproduces, at most 8 replays per run
+				if seen[key] > 3 || len(replays) >= 8 {
 					continue
 				}
 				if o.spec.NoReplay || noReplay {
+					if seen[key] > 1 {
+						continue
+					}
 					violations++
 					fmt.Printf("  violation (not natively replayable) %s: %s choices=%v notes=%v\n", p.AssertID, firstLine(p.Msg), p.Choices, p.Notes)
 					ro, _ := writeReplay(def.ID, o.spec, p, len(replays), known, false)
@@ -324,10 +333,12 @@ func runCheck(def *CheckDef, tier string, seed int, noKnown, noReplay bool, only
 				if ro.Reproduced {
 					violations++
 					exit = 1
+					reproducedKey[key] = true
+					delete(notReproduced, key)
 					fmt.Printf("  counterexample %s (%s) reproduced natively: %s\n", p.AssertID, firstLine(p.Msg), ro.Result)
 					fmt.Printf("VIOLATION property=%s replay=%s\n", def.ID, ro.Dir)
 				} else {
-					inconclusive = append(inconclusive, fmt.Sprintf("%s: engine counterexample %s did not reproduce natively (native: %s) — engine/stub mismatch, see %s", o.spec.Name, p.AssertID, ro.Result, ro.Dir))
+					notReproduced[key] = fmt.Sprintf("%s: engine counterexample %s did not reproduce natively (native: %s) — engine/stub mismatch, see %s", o.spec.Name, p.AssertID, ro.Result, ro.Dir)
 				}
 			case sx.StKnown:
 			case sx.StUnsupported, sx.StBudget, sx.StInternal:
@@ -337,6 +348,9 @@ func runCheck(def *CheckDef, tier string, seed int, noKnown, noReplay bool, only
 					inconclusive = append(inconclusive, fmt.Sprintf("%s: %s: %s", o.spec.Name, p.Status, firstLine(p.Msg)))
 				}
 			}
+		}
+		for _, m := range notReproduced {
+			inconclusive = append(inconclusive, m)
 		}
 	}
 	for _, l := range def.Reach {
@@ -449,4 +463,15 @@ func sortedModelKeys(m map[string]uint64) []string {
 	}
 	sort.Strings(ks)
 	return ks
+}
+
+func stripDigits(s string) string {
+	var sb strings.Builder
+	for _, r := range s {
+		if r >= '0' && r <= '9' {
+			continue
+		}
+		sb.WriteRune(r)
+	}
+	return sb.String()
 }
